@@ -88,6 +88,7 @@ SessStep ==
              [] a[1] = "Fix"     -> Fix(a[2])
              [] a[1] = "Rename"  -> Rename(a[2])
              [] a[1] = "Bad"     -> Bad
+             [] a[1] = "Write"   -> Write(a[2])
              [] OTHER -> FALSE
         /\ dirty' = IF a[1] = "SetSect" THEN dirty \cup {of[a[2]]} ELSE dirty
         /\ nfix' = IF a[1] = "Fix" THEN [nfix EXCEPT ![FixDate(a[2])] = @ + 1] ELSE nfix
